@@ -100,6 +100,10 @@ func generate(ld *Loaded, cs *Contracts, fc *FuncContract) *FuncResult {
 		cx.assume(env.evalBool(cl.Expr))
 		cx.note("assumed without proof in %s: %s", name, cl.Src)
 	}
+	if fc.Decreases != nil {
+		env := ex.specEnv(top, st, ex.entry)
+		ex.entryMeasure = cx.name("measure", env.evalInt(fc.Decreases.Expr))
+	}
 	// vacuity: the preconditions are satisfiable
 	vo := cx.oblige("vacuity", "requires-sat", tTrue, tTrue, ex.pos(fn.Pos()), nil)
 	vo.Name = name + "#vacuity:requires-sat"
